@@ -2,103 +2,109 @@ import GeomV.C03.Proofs
 import Mathlib.Tactic.FieldSimp
 import Mathlib.Tactic.Positivity
 /-!
-# C03 — the range guard of the centroids (fix 4edcec2) is the identity on the exact model
+# C03 — the range guard of the centroids is the identity on the exact model
 
-`Polygon.Centroid`, `op.Centroid` (and `MultiPolygon.Centroid`) divide all coordinates by a power of
-two `k` when the largest coordinate is outside `[2^-300, 2^300]`, run the unchanged loops on the copy
-and multiply the result by `k`.  Here: for EVERY positive `k` the loops are homogeneous
-(`core (p / k) · k = core p`, faults and non-finite results included), the `k` the code picks is
-positive, hence the guarded functions equal their loops on every input, and the centroid clauses
-proved for the loops in `Proofs.lean` hold for the functions as they are now.
+`Polygon.Centroid`, `op.Centroid` (and `MultiPolygon.Centroid`, see `ProofsMScale.lean`) divide the X
+coordinates by a power of two `kx` and the Y coordinates by a power of two `ky` when the largest |X|
+(resp. |Y|) is outside `[2^-300, 2^300]`, run the unchanged loops on the copy and multiply the result
+back (fix 4edcec2, made per axis by the later fix for polygons whose extents in x and y differ by more
+than ~2^500).  Here: for EVERY positive `kx`, `ky` the loops are homogeneous
+(`core (p / (kx, ky)) · (kx, ky) = core p`, faults and non-finite results included), the factors the
+code picks are positive, hence the guarded functions equal their loops on every input, and the centroid
+clauses proved for the loops in `Proofs.lean` hold for the functions as they are now.
 -/
 namespace GeomV.C03
 open Spec
 set_option linter.unusedSimpArgs false
 
+/-- a point with X divided by `kx` and Y by `ky` -/
+def scPt (kx ky : Rat) (v : P) : P := ⟨v.x / kx, v.y / ky⟩
+
+theorem scaleRing_eq_map (kx ky : Rat) (r : Ring) : scaleRing kx ky r = r.map (scPt kx ky) := rfl
+
 /-! ### the sums under scaling -/
 
-theorem pairSum_scale3 (f : P → P → Rat) (k : Rat)
-    (hf : ∀ a b : P, f ⟨a.x / k, a.y / k⟩ ⟨b.x / k, b.y / k⟩ = f a b / k ^ 3) (l : List P) :
-    pairSum f (scaleRing k l) = pairSum f l / k ^ 3 := by
+theorem pairSum_scaleG (f : P → P → Rat) (S : P → P) (c : Rat)
+    (hf : ∀ a b : P, f (S a) (S b) = f a b / c) (l : List P) :
+    pairSum f (l.map S) = pairSum f l / c := by
   induction l with
-  | nil => simp [scaleRing, pairSum]
+  | nil => simp [pairSum]
   | cons a t ih =>
     cases t with
-    | nil => simp [scaleRing, pairSum]
+    | nil => simp [pairSum]
     | cons b t' =>
-      have e : scaleRing k (a :: b :: t') = ⟨a.x / k, a.y / k⟩ :: scaleRing k (b :: t') := rfl
-      have e2 : scaleRing k (b :: t') = ⟨b.x / k, b.y / k⟩ :: scaleRing k t' := rfl
-      rw [e, e2, pairSum_cons_cons, ← e2, ih, pairSum_cons_cons, hf]; ring
+      simp only [List.map_cons] at ih ⊢
+      rw [pairSum_cons_cons, ih, pairSum_cons_cons, hf]; ring
 
-theorem cxF_scale (k : Rat) (hk : k ≠ 0) (a b : P) :
-    cxF ⟨a.x / k, a.y / k⟩ ⟨b.x / k, b.y / k⟩ = cxF a b / k ^ 3 := by
-  unfold cxF; field_simp
+theorem cxF_scale (kx ky : Rat) (hx : kx ≠ 0) (hy : ky ≠ 0) (a b : P) :
+    cxF (scPt kx ky a) (scPt kx ky b) = cxF a b / (kx ^ 2 * ky) := by
+  unfold cxF scPt; field_simp
 
-theorem cyF_scale (k : Rat) (hk : k ≠ 0) (a b : P) :
-    cyF ⟨a.x / k, a.y / k⟩ ⟨b.x / k, b.y / k⟩ = cyF a b / k ^ 3 := by
-  unfold cyF; field_simp
+theorem cyF_scale (kx ky : Rat) (hx : kx ≠ 0) (hy : ky ≠ 0) (a b : P) :
+    cyF (scPt kx ky a) (scPt kx ky b) = cyF a b / (kx * ky ^ 2) := by
+  unfold cyF scPt; field_simp
 
-theorem shoeF_scale (k : Rat) (hk : k ≠ 0) (a b : P) :
-    shoeF ⟨a.x / k, a.y / k⟩ ⟨b.x / k, b.y / k⟩ = shoeF a b / k ^ 2 := by
-  unfold shoeF; field_simp
+theorem shoeF_scale (kx ky : Rat) (hx : kx ≠ 0) (hy : ky ≠ 0) (a b : P) :
+    shoeF (scPt kx ky a) (scPt kx ky b) = shoeF a b / (kx * ky) := by
+  unfold shoeF scPt; field_simp
 
-theorem pairSum_scale2 (k : Rat) (hk : k ≠ 0) (l : List P) :
-    pairSum shoeF (scaleRing k l) = pairSum shoeF l / k ^ 2 := by
-  induction l with
-  | nil => simp [scaleRing, pairSum]
-  | cons a t ih =>
-    cases t with
-    | nil => simp [scaleRing, pairSum]
-    | cons b t' =>
-      have e : scaleRing k (a :: b :: t') = ⟨a.x / k, a.y / k⟩ :: scaleRing k (b :: t') := rfl
-      have e2 : scaleRing k (b :: t') = ⟨b.x / k, b.y / k⟩ :: scaleRing k t' := rfl
-      rw [e, e2, pairSum_cons_cons, ← e2, ih, pairSum_cons_cons, shoeF_scale k hk]; ring
+theorem pairSum_cx_scale (kx ky : Rat) (hx : kx ≠ 0) (hy : ky ≠ 0) (l : List P) :
+    pairSum cxF (scaleRing kx ky l) = pairSum cxF l / (kx ^ 2 * ky) :=
+  pairSum_scaleG cxF _ _ (cxF_scale kx ky hx hy) l
 
-theorem scaleRing_length (k : Rat) (r : Ring) : (scaleRing k r).length = r.length := by
+theorem pairSum_cy_scale (kx ky : Rat) (hx : kx ≠ 0) (hy : ky ≠ 0) (l : List P) :
+    pairSum cyF (scaleRing kx ky l) = pairSum cyF l / (kx * ky ^ 2) :=
+  pairSum_scaleG cyF _ _ (cyF_scale kx ky hx hy) l
+
+theorem pairSum_shoe_scale (kx ky : Rat) (hx : kx ≠ 0) (hy : ky ≠ 0) (l : List P) :
+    pairSum shoeF (scaleRing kx ky l) = pairSum shoeF l / (kx * ky) :=
+  pairSum_scaleG shoeF _ _ (shoeF_scale kx ky hx hy) l
+
+theorem scaleRing_length (kx ky : Rat) (r : Ring) : (scaleRing kx ky r).length = r.length := by
   simp [scaleRing]
 
-theorem scalePt_inj (k : Rat) (hk : k ≠ 0) (a b : P) :
-    ((⟨a.x / k, a.y / k⟩ : P) = ⟨b.x / k, b.y / k⟩) ↔ a = b := by
+theorem scPt_inj (kx ky : Rat) (hx : kx ≠ 0) (hy : ky ≠ 0) (a b : P) :
+    scPt kx ky a = scPt kx ky b ↔ a = b := by
   constructor
   · intro h
-    have hx : a.x / k = b.x / k := congrArg Pt.x h
-    have hy : a.y / k = b.y / k := congrArg Pt.y h
-    have hx' : a.x = b.x := by field_simp at hx; exact hx
-    have hy' : a.y = b.y := by field_simp at hy; exact hy
+    have h1 : a.x / kx = b.x / kx := congrArg Pt.x h
+    have h2 : a.y / ky = b.y / ky := congrArg Pt.y h
+    have hx' : a.x = b.x := by field_simp at h1; exact h1
+    have hy' : a.y = b.y := by field_simp at h2; exact h2
     cases a; cases b; simp_all
   · intro h; rw [h]
 
-theorem goCyc_shoeF_scale (k : Rat) (hk : k ≠ 0) (r : Ring) :
-    goCyc shoeF (scaleRing k r) = goCyc shoeF r / k ^ 2 := by
+theorem getLast?_scale (kx ky : Rat) (r : Ring) :
+    (scaleRing kx ky r).getLast? = r.getLast?.map (scPt kx ky) := by
+  rw [scaleRing_eq_map, List.getLast?_map]
+theorem head?_scale (kx ky : Rat) (r : Ring) :
+    (scaleRing kx ky r).head? = r.head?.map (scPt kx ky) := by
+  rw [scaleRing_eq_map, List.head?_map]
+
+theorem goCyc_shoeF_scale (kx ky : Rat) (hx : kx ≠ 0) (hy : ky ≠ 0) (r : Ring) :
+    goCyc shoeF (scaleRing kx ky r) = goCyc shoeF r / (kx * ky) := by
   unfold goCyc
-  have hl : (scaleRing k r).getLast? = r.getLast?.map fun v => (⟨v.x / k, v.y / k⟩ : P) := by
-    simp [scaleRing]
-  have hh : (scaleRing k r).head? = r.head?.map fun v => (⟨v.x / k, v.y / k⟩ : P) := by
-    simp [scaleRing]
-  rw [hl, hh]
-  cases r.getLast? <;> cases r.head? <;> simp [shoeF_scale k hk, pairSum_scale2 k hk]
+  rw [getLast?_scale, head?_scale]
+  cases r.getLast? <;> cases r.head? <;>
+    simp [shoeF_scale kx ky hx hy, pairSum_shoe_scale kx ky hx hy]
   ring
 
-theorem signedArea_scale (k : Rat) (hk : k ≠ 0) (r : Ring) :
-    signedArea (scaleRing k r) = signedArea r / k ^ 2 := by
+theorem signedArea_scale (kx ky : Rat) (hx : kx ≠ 0) (hy : ky ≠ 0) (r : Ring) :
+    signedArea (scaleRing kx ky r) = signedArea r / (kx * ky) := by
   unfold signedArea
-  rw [scaleRing_length, goCyc_shoeF_scale k hk]
+  rw [scaleRing_length, goCyc_shoeF_scale kx ky hx hy]
   split <;> ring
 
-theorem opRingArea_scale (k : Rat) (hk : k ≠ 0) (r : Ring) :
-    opRingArea (scaleRing k r) = opRingArea r / k ^ 2 := by
+theorem opRingArea_scale (kx ky : Rat) (hx : kx ≠ 0) (hy : ky ≠ 0) (r : Ring) :
+    opRingArea (scaleRing kx ky r) = opRingArea r / (kx * ky) := by
   unfold opRingArea
-  rw [scaleRing_length, goCyc_shoeF_scale k hk]
+  rw [scaleRing_length, goCyc_shoeF_scale kx ky hx hy]
   split <;> ring
 
-theorem closeIfOpen_scale (k : Rat) (hk : k ≠ 0) (r : Ring) :
-    closeIfOpen (scaleRing k r) = (closeIfOpen r).map (scaleRing k) := by
+theorem closeIfOpen_scale (kx ky : Rat) (hx : kx ≠ 0) (hy : ky ≠ 0) (r : Ring) :
+    closeIfOpen (scaleRing kx ky r) = (closeIfOpen r).map (scaleRing kx ky) := by
   unfold closeIfOpen
-  have hl : (scaleRing k r).getLast? = r.getLast?.map fun v => (⟨v.x / k, v.y / k⟩ : P) := by
-    simp [scaleRing]
-  have hh : (scaleRing k r).head? = r.head?.map fun v => (⟨v.x / k, v.y / k⟩ : P) := by
-    simp [scaleRing]
-  rw [hl, hh]
+  rw [getLast?_scale, head?_scale]
   cases hL : r.getLast? with
   | none => simp [Except.map]
   | some l =>
@@ -107,119 +113,134 @@ theorem closeIfOpen_scale (k : Rat) (hk : k ≠ 0) (r : Ring) :
     | some h =>
       simp only [Option.map_some, Except.map]
       by_cases e : l = h
-      · rw [if_pos e, if_pos ((scalePt_inj k hk l h).mpr e)]
-      · rw [if_neg e, if_neg (fun c => e ((scalePt_inj k hk l h).mp c))]
-        simp [scaleRing]
+      · rw [if_pos e, if_pos ((scPt_inj kx ky hx hy l h).mpr e)]
+      · rw [if_neg e, if_neg (fun c => e ((scPt_inj kx ky hx hy l h).mp c))]
+        simp [scaleRing, scPt]
 
 /-! ### the accumulator under scaling -/
 
 /-- the accumulator of the loops on the scaled copy -/
-def CAcc.sc (k : Rat) (s : CAcc) : CAcc := ⟨s.A / k ^ 2, s.xA / k ^ 3, s.yA / k ^ 3, s.nan⟩
+def CAcc.sc (kx ky : Rat) (s : CAcc) : CAcc :=
+  ⟨s.A / (kx * ky), s.xA / (kx ^ 2 * ky), s.yA / (kx * ky ^ 2), s.nan⟩
 
-theorem CAcc.add_sc (k : Rat) (hk : k ≠ 0) (s : CAcc) (cx cy den w : Rat) :
-    (s.sc k).add (cx / k ^ 3) (cy / k ^ 3) (den / k ^ 2) (w / k ^ 2) = (s.add cx cy den w).sc k := by
+theorem CAcc.add_sc (kx ky : Rat) (hx : kx ≠ 0) (hy : ky ≠ 0) (s : CAcc) (cx cy den w : Rat) :
+    (s.sc kx ky).add (cx / (kx ^ 2 * ky)) (cy / (kx * ky ^ 2)) (den / (kx * ky)) (w / (kx * ky))
+      = (s.add cx cy den w).sc kx ky := by
   unfold CAcc.add CAcc.sc
   by_cases h : den = 0
-  · have h' : den / k ^ 2 = 0 := by rw [h]; simp
+  · have h' : den / (kx * ky) = 0 := by rw [h]; simp
     rw [if_pos h, if_pos h']
     simp only [CAcc.mk.injEq, and_true, true_and]
     ring
-  · have h' : den / k ^ 2 ≠ 0 := div_ne_zero h (pow_ne_zero 2 hk)
+  · have h' : den / (kx * ky) ≠ 0 := div_ne_zero h (mul_ne_zero hx hy)
     rw [if_neg h, if_neg h']
     simp only [CAcc.mk.injEq, and_true]
     refine ⟨by ring, ?_, ?_⟩ <;> field_simp
 
-/-- the quotient of the scaled sums is the quotient divided by `k` (infinities and NaN unchanged) -/
-theorem fdiv_sc (k : Rat) (hk : 0 < k) (x a : Rat) :
-    (fdiv (x / k ^ 3) (a / k ^ 2)).mulPos k = fdiv x a := by
+/-- the quotient of the scaled sums is the quotient divided by `k` (infinities and NaN unchanged):
+`c = d · k` with `d, k > 0` -/
+theorem fdiv_sc (c d k : Rat) (hd : 0 < d) (hk : 0 < k) (hc : c = d * k) (x a : Rat) :
+    (fdiv (x / c) (a / d)).mulPos k = fdiv x a := by
+  have hd0 : d ≠ 0 := ne_of_gt hd
   have hk0 : k ≠ 0 := ne_of_gt hk
+  have hcp : 0 < c := by rw [hc]; positivity
   unfold fdiv
   by_cases h : a = 0
-  · have h' : a / k ^ 2 = 0 := by rw [h]; simp
+  · have h' : a / d = 0 := by rw [h]; simp
     rw [if_pos h, if_pos h']
-    have h3 : 0 < k ^ 3 := by positivity
     by_cases hp : 0 < x
-    · rw [if_pos hp, if_pos (div_pos hp h3)]; rfl
-    · rw [if_neg hp, if_neg (by intro c; exact hp (by
-        have := mul_pos c h3; rwa [div_mul_cancel₀ _ (ne_of_gt h3)] at this))]
+    · rw [if_pos hp, if_pos (div_pos hp hcp)]; rfl
+    · rw [if_neg hp, if_neg (by intro cc; exact hp (by
+        have := mul_pos cc hcp; rwa [div_mul_cancel₀ _ (ne_of_gt hcp)] at this))]
       by_cases hn : x < 0
-      · rw [if_pos hn, if_pos (div_neg_of_neg_of_pos hn h3)]; rfl
-      · rw [if_neg hn, if_neg (by intro c; exact hn (by
-          have := mul_neg_of_neg_of_pos c h3; rwa [div_mul_cancel₀ _ (ne_of_gt h3)] at this))]
+      · rw [if_pos hn, if_pos (div_neg_of_neg_of_pos hn hcp)]; rfl
+      · rw [if_neg hn, if_neg (by intro cc; exact hn (by
+          have := mul_neg_of_neg_of_pos cc hcp; rwa [div_mul_cancel₀ _ (ne_of_gt hcp)] at this))]
         rfl
-  · have h' : a / k ^ 2 ≠ 0 := div_ne_zero h (pow_ne_zero 2 hk0)
+  · have h' : a / d ≠ 0 := div_ne_zero h hd0
     rw [if_neg h, if_neg h']
     simp only [FQ.mulPos, FQ.fin.injEq]
-    field_simp
+    rw [hc]; field_simp
 
-theorem finish_sc (k : Rat) (hk : 0 < k) (s : CAcc) : unscale k (s.sc k).finish = s.finish := by
+theorem finish_sc (kx ky : Rat) (hx : 0 < kx) (hy : 0 < ky) (s : CAcc) :
+    unscale kx ky (s.sc kx ky).finish = s.finish := by
   unfold CAcc.finish unscale
   by_cases hn : s.nan = true
-  · have : (s.sc k).nan = true := hn
+  · have : (s.sc kx ky).nan = true := hn
     rw [if_pos hn, if_pos this]; rfl
-  · have : ¬ (s.sc k).nan = true := hn
+  · have : ¬ (s.sc kx ky).nan = true := hn
     rw [if_neg hn, if_neg this]
-    simp only [CAcc.sc, fdiv_sc k hk]
+    have hd : 0 < kx * ky := by positivity
+    simp only [CAcc.sc, fdiv_sc (kx ^ 2 * ky) (kx * ky) kx hd hx (by ring),
+      fdiv_sc (kx * ky ^ 2) (kx * ky) ky hd hy (by ring)]
 
 /-! ### Polygon.Centroid and op.Centroid -/
 
-theorem polygonCentroidAcc_scale (k : Rat) (hk : k ≠ 0) (p : Poly) (s : CAcc) :
-    polygonCentroidAcc (scalePoly k p) (s.sc k) = (polygonCentroidAcc p s).map (CAcc.sc k) := by
+theorem polygonCentroidAcc_scale (kx ky : Rat) (hx : kx ≠ 0) (hy : ky ≠ 0) (p : Poly) (s : CAcc) :
+    polygonCentroidAcc (scalePoly kx ky p) (s.sc kx ky) = (polygonCentroidAcc p s).map (CAcc.sc kx ky) := by
   induction p generalizing s with
   | nil => rfl
   | cons r t ih =>
-    have e : scalePoly k (r :: t) = scaleRing k r :: scalePoly k t := rfl
+    have e : scalePoly kx ky (r :: t) = scaleRing kx ky r :: scalePoly kx ky t := rfl
     rw [e]
     unfold polygonCentroidAcc
-    rw [closeIfOpen_scale k hk, signedArea_scale k hk]
+    rw [closeIfOpen_scale kx ky hx hy, signedArea_scale kx ky hx hy]
     cases hc : closeIfOpen r with
     | error f => rfl
     | ok rc =>
       simp only [Except.map, bind, Except.bind]
-      rw [pairSum_scale3 cxF k (cxF_scale k hk), pairSum_scale3 cyF k (cyF_scale k hk), CAcc.add_sc k hk, ih]
+      rw [pairSum_cx_scale kx ky hx hy, pairSum_cy_scale kx ky hx hy, CAcc.add_sc kx ky hx hy, ih]
       rfl
 
-/-- **Homogeneity of the `Polygon.Centroid` loop**: for every positive `k`, the loop on the copy
-divided by `k`, multiplied back, is the loop on the original — value, non-finite outcome or fault. -/
-theorem polygonCentroidCore_scale (k : Rat) (hk : 0 < k) (p : Poly) :
-    (polygonCentroidCore (scalePoly k p)).map (unscale k) = polygonCentroidCore p := by
+/-- **Homogeneity of the `Polygon.Centroid` loop**: for every positive `kx`, `ky`, the loop on the copy
+with X divided by `kx` and Y by `ky`, multiplied back, is the loop on the original — value, non-finite
+outcome or fault. -/
+theorem polygonCentroidCore_scale (kx ky : Rat) (hx : 0 < kx) (hy : 0 < ky) (p : Poly) :
+    (polygonCentroidCore (scalePoly kx ky p)).map (unscale kx ky) = polygonCentroidCore p := by
   unfold polygonCentroidCore
-  have h0 : CAcc.zero = CAcc.zero.sc k := by simp [CAcc.zero, CAcc.sc]
-  rw [h0, polygonCentroidAcc_scale k (ne_of_gt hk)]
+  have h0 : CAcc.zero = CAcc.zero.sc kx ky := by simp [CAcc.zero, CAcc.sc]
+  rw [h0, polygonCentroidAcc_scale kx ky (ne_of_gt hx) (ne_of_gt hy)]
   rw [← h0]
   cases polygonCentroidAcc p CAcc.zero with
   | error f => rfl
-  | ok s => simp only [Functor.map, Except.map, finish_sc k hk]
+  | ok s => simp only [Functor.map, Except.map, finish_sc kx ky hx hy]
 
-theorem opCentroidAcc_scale (k : Rat) (hk : k ≠ 0) (p : Poly) (s : CAcc) :
-    opCentroidAcc (scalePoly k p) (s.sc k) = (opCentroidAcc p s).sc k := by
+theorem opCentroidAcc_scale (kx ky : Rat) (hx : kx ≠ 0) (hy : ky ≠ 0) (p : Poly) (s : CAcc) :
+    opCentroidAcc (scalePoly kx ky p) (s.sc kx ky) = (opCentroidAcc p s).sc kx ky := by
   induction p generalizing s with
   | nil => rfl
   | cons r t ih =>
-    have e : scalePoly k (r :: t) = scaleRing k r :: scalePoly k t := rfl
+    have e : scalePoly kx ky (r :: t) = scaleRing kx ky r :: scalePoly kx ky t := rfl
     rw [e]
     unfold opCentroidAcc
     simp only []
-    rw [opRingArea_scale k hk, pairSum_scale3 cxF k (cxF_scale k hk), pairSum_scale3 cyF k (cyF_scale k hk),
-      CAcc.add_sc k hk, ih]
+    rw [opRingArea_scale kx ky hx hy, pairSum_cx_scale kx ky hx hy, pairSum_cy_scale kx ky hx hy,
+      CAcc.add_sc kx ky hx hy, ih]
 
-theorem opCentroidCore_scale (k : Rat) (hk : 0 < k) (p : Poly) :
-    unscale k (opCentroidCore (scalePoly k p)) = opCentroidCore p := by
+theorem opCentroidCore_scale (kx ky : Rat) (hx : 0 < kx) (hy : 0 < ky) (p : Poly) :
+    unscale kx ky (opCentroidCore (scalePoly kx ky p)) = opCentroidCore p := by
   unfold opCentroidCore
-  have h0 : CAcc.zero = CAcc.zero.sc k := by simp [CAcc.zero, CAcc.sc]
-  rw [h0, opCentroidAcc_scale k (ne_of_gt hk), ← h0, finish_sc k hk]
+  have h0 : CAcc.zero = CAcc.zero.sc kx ky := by simp [CAcc.zero, CAcc.sc]
+  rw [h0, opCentroidAcc_scale kx ky (ne_of_gt hx) (ne_of_gt hy), ← h0, finish_sc kx ky hx hy]
 
-/-! ### the factor the code picks is positive -/
+/-! ### the factors the code picks are positive -/
 
 theorem pow2_pos (i : Int) : 0 < pow2 i := by
   unfold pow2; split <;> positivity
 
-theorem centScale_pos {rings : Poly} {k : Rat} (h : centScale rings = some k) : 0 < k := by
+theorem axisScale_pos (m : Rat) : 0 < axisScale m := by
+  unfold axisScale
+  split
+  · unfold pow2Floor; simp only []; split <;> exact pow2_pos _
+  · norm_num
+
+theorem centScale_pos {rings : Poly} {kx ky : Rat} (h : centScale rings = some (kx, ky)) :
+    0 < kx ∧ 0 < ky := by
   unfold centScale at h
   simp only [] at h
   split at h
-  · simp only [Option.some.injEq] at h
-    rw [← h]; unfold pow2Floor; simp only []; split <;> exact pow2_pos _
+  · simp only [Option.some.injEq, Prod.mk.injEq] at h
+    rw [← h.1, ← h.2]; exact ⟨axisScale_pos _, axisScale_pos _⟩
   · simp at h
 
 /-- **`Polygon.Centroid` with its range guard is its loop**, on every input (exact model). -/
@@ -227,18 +248,25 @@ theorem C03_centroid_guard (p : Poly) : polygonCentroid p = polygonCentroidCore 
   unfold polygonCentroid
   cases h : centScale p with
   | none => rfl
-  | some k => exact polygonCentroidCore_scale k (centScale_pos h) p
+  | some k =>
+    obtain ⟨kx, ky⟩ := k
+    exact polygonCentroidCore_scale kx ky (centScale_pos h).1 (centScale_pos h).2 p
 
 /-- **`op.Centroid` with its range guard is its loop**, on every input (exact model). -/
 theorem C03_opCentroid_guard (p : Poly) : opCentroid p = opCentroidCore p := by
   unfold opCentroid
   cases h : centScale p with
   | none => rfl
-  | some k => exact opCentroidCore_scale k (centScale_pos h) p
+  | some k =>
+    obtain ⟨kx, ky⟩ := k
+    exact opCentroidCore_scale kx ky (centScale_pos h).1 (centScale_pos h).2 p
 
-/-- non-vacuity: the guard fires on the 10×10 square with a hole scaled by 2^400 and picks `k = 2^403`
-(`10·2^400 ∈ [2^403, 2^404)`), and does not fire on the unscaled square -/
-example : centScale (scalePoly (1 / 2 ^ 400) exPoly) = some (2 ^ 403) ∧ centScale exPoly = none := by
+/-- non-vacuity: the guard fires on the 10×10 square with a hole scaled by 2^400 and picks `2^403` on both
+axes (`10·2^400 ∈ [2^403, 2^404)`), picks `(1, 2^603)` when only the Y coordinates are multiplied by
+2^600 (the anisotropic case that the single-factor guard got wrong), and does not fire on the unscaled
+square -/
+example : centScale (scalePoly (1 / 2 ^ 400) (1 / 2 ^ 400) exPoly) = some (2 ^ 403, 2 ^ 403) ∧
+    centScale (scalePoly 1 (1 / 2 ^ 600) exPoly) = some (1, 2 ^ 603) ∧ centScale exPoly = none := by
   decide +kernel
 
 /-- **Centroid clause for `Polygon.Centroid` as it is now** (range guard included): `C03_centroid_valid`
@@ -256,10 +284,8 @@ theorem op_agrees_centroid_guarded (p : Poly) (hc : ∀ r ∈ p, closeIfOpen r =
   rw [C03_centroid_guard, C03_opCentroid_guard]; exact op_agrees_centroid p hc
 
 /-- **`MultiPolygon.Centroid` as it is now, coordinates inside `[2^-300, 2^300]`**: the guard does not
-fire and `C03_mcentroid` is the statement about the function.  (In the rescaled branch the function is
-`k ·` its loop on the copy divided by `k` by definition, and `C03_mcentroid` applies to that copy when it
-is valid; that validity is invariant under scaling is NOT proved here — it goes through the
-point-in-polygon code — and is judged per case.) -/
+fire and `C03_mcentroid` is the statement about the function.  (The rescaled branch is covered by
+`C03_mcentroid_guard` / `C03_mcentroid_guarded_all` in `ProofsMScale.lean`.) -/
 theorem C03_mcentroid_guarded (mp : MPoly) (sss : List (List Spell))
     (hlen : List.Forall₂ (fun ss p => ss.length = p.length) sss mp)
     (hclosed : ∀ ss ∈ sss, ∀ s ∈ ss, s.closed = true)
